@@ -479,8 +479,11 @@ class _ManifoldDynamicsService(_DynamicsServiceBase):
         
         def _factory() -> StabilityPipeline:
             _, _, phi_T, _ = self.compute_stm(steps=2000)
-            self.generator.compute(domain_obj=phi_T, options=options)
-            return self.generator
+            # One pipeline per cache entry: a shared one would make every entry
+            # show the results of whichever request was computed last
+            generator = StabilityPipeline.with_default_engine(config=self.eigendecomposition_config)
+            generator.compute(domain_obj=phi_T, options=options)
+            return generator
         
         return self.get_or_create(key, _factory)
 
@@ -618,6 +621,7 @@ class _ManifoldDynamicsService(_DynamicsServiceBase):
         """
         self._eigendecomposition_config = value
         self._generator = None  # Invalidate cache to trigger recreation
+        self.reset()  # Cached decompositions were computed with the previous configuration
     
     @property
     def eigendecomposition_options(self) -> "EigenDecompositionOptions":
